@@ -92,7 +92,7 @@ mutant("c05_tolerance_one_sided", "C05", ["C05"], "src/gemseo/utils/comparisons.
        "            if norm_diff > tolerance * (1.0 + norm_ref):\n", "            if norm_diff > tolerance * (1.0 + norm_ref) and (other_value - value).sum() > 0:\n",
        "tolerance comparison one-sided")
 mutant("c05_hash_index_not_reloaded", "C05", ["C05", "C13"], "src/gemseo/caches/hdf5_cache.py",
-       "self._hdf_file.read_hashes(", "(lambda *a, **k: 0)(",
+       "        super().__init__(tolerance, name or hdf_node_path)\n        self._read_hashes()\n", "        super().__init__(tolerance, name or hdf_node_path)\n",
        "hashes not re-read when an HDF5 cache is reopened")
 mutant("c05_jacobian_not_invalidated", "C05", ["C05"], "src/gemseo/caches/simple_cache.py",
        "        self.__inputs = deepcopy_dict_of_arrays(input_data)\n        self.__outputs = deepcopy_dict_of_arrays(output_data)\n        self.__jacobian = {}\n",
